@@ -55,6 +55,9 @@ def judge(run, rec, pid="C01"):
     ref, i0, i1 = obs.get("ref", []), obs.get("impl0", []), obs.get("impl1")
     mv, mr = obs.get("model_vm", []), obs.get("model_ref", [])
     nt = nontrivial_src(src)
+    dom = rec.get("domain", "")
+    run.count("theorem-domain:" + ("ScalarCore" if "scalarcore=yes" in dom else "StorageCore" if "storagecore=yes" in dom else "outside (correspondence only)"))
+    if "scalarcore=yes" in dom: run.count("theorem-domain:optimised (NoShadow %s)" % ("holds" if "noshadow=yes" in dom else "fails"))
     for j, r in enumerate(ref):
         inp = dict(base_inp, input_index=j, input=rec["inputs"][j])
         if r[0] == "ood":
@@ -91,8 +94,9 @@ def judge(run, rec, pid="C01"):
 
 def spec(tier, scale=1):
     n = N[tier] * scale
-    return [(n * 4 // 10, None, None),
-            (n * 3 // 10, dict(arrays=False, structs=False), None),                 # inside the theorem's domain
+    return [(n * 3 // 10, None, None),
+            (n * 2 // 10, dict(local_aggs_only=True, sibling_reuse=False), None),   # local arrays/structs as storage: domain of C01_compile_correct_storage
+            (n * 2 // 10, dict(arrays=False, structs=False), None),                 # scalar core: domain of C01_compile_correct and C01_opt_compile_correct
             (n * 2 // 10, dict(max_depth=4, max_stmts=6, calls=False), None),
             (n * 1 // 10, dict(floats=False, max_depth=4), None)]
 
